@@ -82,6 +82,11 @@ K['vf_cjoin_lr'] = ([TWO, FR('on', 'ids', 'xn', 'xids')], OWS('on', 'ids', 'xn',
 K['vf_cpop_back'] = ([SRC3, FR('sn', 'sids')], OWS('sn', 'sids'), ['__CPROVER_return_value == (n == 0 ? (u32)-1 : %s)' % E3('(n - 1)'), seq('sn', 'sids', E3) % '(n == 0 ? 0 : n - 1)', NOCOPY, NORM], 'container::pop_back: the last element is moved out (never copied), the rest is intact')
 K['vf_cmove_clear'] = ([SRC3, FR('on', 'ids', 'sn')], OWS('on', 'ids', 'sn'), [seq('on', 'ids', E3) % 'n', '*sn == 0', NOCOPY, NORM], 'move_clear: the result holds all elements (moved, never copied), the argument is left empty')
 
+K['vf_cget_or_insert'] = (['n <= 2 && (n < 2 || k0 != k1) && ' + IDC('a0', 'a1', 'fresh'), '__CPROVER_is_fresh(inserted, 1) && __CPROVER_is_fresh(on, 8) && __CPROVER_is_fresh(ids, 16)'], ['*inserted'] + OWS('on', 'ids'),
+                          ['__CPROVER_return_value == ((0 < n && k0 == key) ? a0 : ((1 < n && k1 == key) ? a1 : fresh))', '*inserted == !((0 < n && k0 == key) || (1 < n && k1 == key))', '*on == n + (*inserted ? 1 : 0)',
+                           'VF_IMP(0 < n, ids[0] == a0) && VF_IMP(1 < n, ids[1] == a1) && VF_IMP(*inserted, ids[n] == fresh)', NOCOPY, NORM],
+                          'container::get_or_insert(_with_result): the created value is moved into the map (never copied), present values are untouched, nothing is read after a move')
+
 
 import itertools
 HH = ['h0', 'h1', 'h2']; AA = ['a0', 'a1', 'a2']
@@ -140,7 +145,7 @@ _fx('vf_rmap_r', ('a0', 'b0'), 2, 0, [OUT('a0', 'b0'), NOCOPY], 'record::map on 
 def make(tier):
     P = Plan('C05', level='proof', design_ref='DESIGN.md section 5 C05')
     P.not_decided += ['the same algorithms on heap containers (std::vector steals the buffer on move; the contracts here are checked on a fixed-capacity container of the instrumented type): algorithm::fold_break / map_optional / reverse, container::pop_front / make_move_range, grid::map / apply / resize (std::vector of a non-trivial element: 20 GB exhausted, experiments/C05_grid_trk), tree::map, options / parse constructors',
-                      'array::append / join / push_back with an lvalue first array, tuple::concat with an lvalue tuple and record::map on an lvalue record do not compile on the pinned tree (the trait is applied to the reference type) - only the forms that compile are under contract; container::get_or_insert (std::map)']
+                      'array::append / join / push_back with an lvalue first array, tuple::concat with an lvalue tuple and record::map on an lvalue record do not compile on the pinned tree (the trait is applied to the reference type) - only the forms that compile are under contract; container::get_or_insert on std::map (it is under contract on a fixed-capacity map of the instrumented type)']
     P.meta += ['the element type records copies, moves and reads of moved-from objects in ghost counters per element id; by parametricity the contracts carry over to every element type, in particular move-only ones (a copy would not compile there)']
     spec = ''
     for f, (req, asg, ens, what) in C.items():
